@@ -35,10 +35,15 @@ def auth_cases(rng, quick, kinds=None, pairs=True):
             if i % 2:
                 s.require_uv = True
                 s.flags |= 0x04
-            faults[name](s, rng)
+            authcat.apply(faults, name, s, scope="all:")
             pol, a = s.build()
             form = "record" if name in authcat.RECORD_ONLY else rng.choice(("text", "dict", "record"))
             yield name, pol, a, form, "reject"
+        while authcat.variants_left(name, scope="all:"):
+            s = authcat.Scn("ES256-P256")
+            authcat.apply(faults, name, s, scope="all:")
+            pol, a = s.build()
+            yield name, pol, a, ("record" if name in authcat.RECORD_ONLY else "dict"), "reject"
     for kind in kinds:
         s = authcat.base_variation(authcat.Scn(kind), rng)
         pol, a = s.build()
@@ -81,13 +86,22 @@ def reg_cases(rng, quick, pairs=True):
             regcat.att_other_key(s, rng)
             pd, reg = regsim.build(s)
             yield f"signed-by-other-key/{fmt}/leaf-without-basic-constraints", regrun.policy_of(pd), reg, "dict", "reject", s
+        if fmt == "packed-self":
+            # every variant of every ceremony-level entry at least once (the entry's own generator walks through them)
+            for name in regcat.CEREMONY:
+                while authcat.variants_left(name, scope="allreg:"):
+                    s = regsim.RScn(fmt, "ES256-P256")
+                    authcat.apply(regcat.CEREMONY, name, s, scope="allreg:")
+                    pd, reg = regsim.build(s)
+                    yield f"{name}/{fmt}", regrun.policy_of(pd), reg, ("record" if name in regcat.RECORD_ONLY else "dict"), "reject", s
         for i, (name, f) in enumerate(regcat.CEREMONY.items()):
             if quick and (i + regsim.FORMATS.index(fmt)) % 2:
                 continue
             s = regsim.RScn(fmt, kinds[i % len(kinds)])
-            f(s, rng)
+            authcat.apply(regcat.CEREMONY, name, s, scope="allreg:")
             pd, reg = regsim.build(s)
             yield f"{name}/{fmt}", regrun.policy_of(pd), reg, ("record" if name in regcat.RECORD_ONLY else rng.choice(("text", "dict", "record"))), "reject", s
+
         for i, (name, f) in enumerate(regcat.FORMAT_FAULTS.get(fmt, {}).items()):
             kind = kinds[i % len(kinds)]
             if regcat.NEEDS_FAMILY.get(name) and authsim.KINDS[kind][0] != regcat.NEEDS_FAMILY[name]:
